@@ -7,7 +7,7 @@ FUNCTIONS = ["magpylib._src.display.traces_utility:get_rot_pos_from_path", "magp
              "magpylib._src.display.traces_generic:process_animation_kwargs", "magpylib._src.defaults.defaults_classes:Animation (setters, update, copy, as_dict)"]
 BOUNDS = ["get_rot_pos_from_path: path length 1..5, frame lists of 3 indices in 0..7, integer steps 1..6, True/False",
           "style_temp_edit: drawing succeeds / raises, copy on/off, with / without a temporary style, object with / without an own style (all symbolic booleans)",
-          "process_animation_kwargs: animation_fps, animation_maxfps in {1,3,20,50,120}, animation_maxframes in {1,5,200,500}, animation_time in {1,2,5,60} chosen by "
+          "process_animation_kwargs: animation_fps, animation_maxfps in {1,3,50}, animation_maxframes in {5,200}, animation_time in {2,60} chosen by "
           "symbolic selectors (CrossHair runs builtin setattr() untraced, so validator inputs cannot stay symbolic), slider symbolic bool, time given as "
           "animation=<number> or as animation_time"]
 CUTS = ["objects are stand-ins exposing _position / _orientation arrays (frames) or a _style attribute (style_temp_edit); the drawing inside the with-block is "
